@@ -64,7 +64,8 @@ def run(ctx: Ctx):
             raise AnalysisError(f"C08: spec_augment does not call {callee.name} once")
         b = bind_args(cs[0], callee, False)
         for p, a, _ in b.pairs:
-            ok = u(a) == p.name or (p.name == "params" and isinstance(a, ast.Name))
+            # (`params`: the drawn tuple, by name or as the draw call written in place)
+            ok = u(a) == p.name or (p.name == "params" and (isinstance(a, ast.Name) or (isinstance(a, ast.Call) and call_name(a) == draw.name)))
             col.ob("G1", "S1", f"{rel}::spec_augment::{callee.name}({p.name}<-{u(a)})", ok,
                    f"`{p.name}` of {callee.name} receives `{u(a)}` (the ten configuration values are mutually "
                    f"transposable numbers)", rel, cs[0].lineno, sample=dict(formal=p.name, arg=u(a)))
@@ -126,11 +127,11 @@ def run(ctx: Ctx):
     # interval masks: i >= start & i < start + width, over T with slots (4,5), over F with slots (6,7)
     mask_ok = {}
     for n in own_nodes(app.node):
-        if isinstance(n, ast.Assign) and isinstance(n.value, ast.BinOp) and isinstance(n.value.op, ast.BitAnd) \
-                and all(isinstance(x, ast.Compare) for x in (n.value.left, n.value.right)):
+        # (the conjunction may be a statement of its own or sit inside `(...).any(2)...`)
+        if isinstance(n, ast.BinOp) and isinstance(n.op, ast.BitAnd) and all(isinstance(x, ast.Compare) for x in (n.left, n.right)):
             from sa.astutil import oriented
             # (index >= start) & (index < end): orient both comparisons on their common operand, in either order
-            sides = [n.value.left, n.value.right]
+            sides = [n.left, n.right]
             common = {u(x) for x in (sides[0].left, sides[0].comparators[0])} & {u(x) for x in (sides[1].left, sides[1].comparators[0])}
             if len(common) != 1:
                 continue
@@ -142,11 +143,17 @@ def run(ctx: Ctx):
             if not okshape:
                 continue
             st = u(_Strip().visit(copy.deepcopy(lo[0][2])))
-            en_name = u(_Strip().visit(copy.deepcopy(hi[0][2])))
-            end_def = [d.value for d in rda.defs if d.name == en_name and d.kind == "assign"]
+            en_x = _Strip().visit(copy.deepcopy(hi[0][2]))
+            # the end of the band: `start + width`, by name (`t_1 = t_0 + t`) or written in place
+            if isinstance(en_x, ast.Name):
+                end_def = [d.value for d in rda.defs if d.name == en_x.id and d.kind == "assign"]
+                en_x = end_def[0] if len(end_def) == 1 else None
+            from sa.norm import Normalizer as _NzI, padd as _paddI
             for (s_i, w_i, tag) in ((4, 5, "time"), (6, 7, "freq")):
                 if st == names[s_i]:
-                    mask_ok[tag] = okshape and len(end_def) == 1 and u(end_def[0]) == f"{names[s_i]} + {names[w_i]}"
+                    nzi = _NzI()
+                    want_ = ast.parse(f"{names[s_i]} + {names[w_i]}", mode="eval").body
+                    mask_ok[tag] = okshape and en_x is not None and not _paddI(nzi.poly(_Strip().visit(copy.deepcopy(en_x))), nzi.poly(want_), -1)
     col.ob("G12", "S2", f"{rel}::spec_augment_apply_parameters::interval-masks", mask_ok == {"time": True, "freq": True},
            f"interval masks (index >= start & index < start + width) built from the right slots: {mask_ok}", rel, app.line,
            sample=mask_ok)
@@ -237,121 +244,19 @@ def run(ctx: Ctx):
     col.ob("G13", "S4", f"{rel}::spec_augment_apply_parameters::border-clamped-bilinear", gk.get("padding_mode") == "'border'" and gk.get("mode") == "'bilinear'"
            and gk.get("align_corners") == "False", f"grid_sample options are {gk}", rel, app.line, sample=gk)
 
-    # ---- S5 time <-> frequency sibling symmetry and draw forms ---------------------------------------------------------
-    def defs_of(f, name):
-        return [n.value for n in own_nodes(f.node) if isinstance(n, ast.Assign) and any(u(t) == name for t in n.targets)]
-
-    dn = [u(e) for e in ret.value.elts]  # drawn slot names: w_0 w v_0 v t_0 t f_0 f
-    # find the half-range variables: the name multiplied by 2 inside the centre draw
-    def half(centre_name):
-        vs = defs_of(draw, centre_name)
-        for v in vs:
-            for x in ast.walk(v):
-                if isinstance(x, ast.BinOp) and isinstance(x.op, ast.Mult) and u(x.left) == "2" and isinstance(x.right, ast.Name):
-                    return x.right.id
-        return None
-    Wn, Vn = half(dn[1]) or half(dn[0]), half(dn[3]) or half(dn[2])
-    if not Wn or not Vn:
-        raise AnalysisError("C08: half-range variables of the warp draws not found")
-    _, Td, Fd = shape_names(draw)
-    renT = {dn[0]: "C0", dn[1]: "C", dn[4]: "S0", dn[5]: "S", Wn: "H", "lengths": "L", Td: "L", "max_time_warp": "MAXW",
-            "max_time_mask": "MAXM"}
-    renF = {dn[2]: "C0", dn[3]: "C", dn[6]: "S0", dn[7]: "S", Vn: "H", Fd: "L", "max_freq_warp": "MAXW", "max_freq_mask": "MAXM"}
-    # 1 - eps and eps, by definition (eps = _get_tensor_eps(feats); omeps = 1 - eps)
-    epsn = next((u(n.targets[0]) for n in own_nodes(draw.node) if isinstance(n, ast.Assign) and isinstance(n.value, ast.Call)
-                 and call_name(n.value) == "_get_tensor_eps"), None)
-    if epsn:
-        renT[epsn] = renF[epsn] = "EPS"
-
-    def one(f, name, ren):
-        vs = [v for v in defs_of(f, name) if "torch.empty(0)" not in u(v)]
-        return _canon(vs[0], ren) if len(vs) == 1 else None
-
-    pairs = {
-        "warp-half-range": (one(draw, Wn, renT), one(draw, Vn, renF)),
-        "warp-centre": (one(draw, dn[0], renT), one(draw, dn[2], renF)),
-        "warp-shift": (one(draw, dn[1], renT), one(draw, dn[3], renF)),
-        "mask-start": (one(draw, dn[4], renT), one(draw, dn[6], renF)),
-    }
-    for k, (a, b) in pairs.items():
-        col.ob("G12", "S5", f"{rel}::spec_augment_draw_parameters::time~freq::{k}", a is not None and a == b,
-               f"time and frequency draws differ under the renaming t<->f, w<->v, lengths/T<->F: time `{a}` vs freq `{b}` (a "
-               f"one-sided off-by-one or bound in either dimension)", rel, draw.line, sample=dict(time=a, freq=b))
-    # expected forms (from which the bounds of C08 follow by arithmetic): width = long(RAND * (cap + 1 - eps)) <= cap;
-    # start = long(RAND * (L - width + 1 - eps)) <= L - width; centre = RAND * (L - 2H) + H in [H, L - H); shift = RAND*2H - H
-    omeps = [n for n in own_nodes(draw.node) if isinstance(n, ast.Assign) and epsn and u(n.value) == f"1 - {epsn}"]
-    om = u(omeps[0].targets[0]) if omeps else None
-    forms = {
-        "warp-centre": f"((RAND)*(L + -2*H)) + H",
-        "warp-shift": None,
-    }
-    cexp = pairs["warp-centre"][0]
-    okc = cexp is not None and re.sub(r"\s", "", cexp) in ("H+L*RAND+-2*H*RAND", "H+-2*H*RAND+L*RAND")
-    col.ob("G12", "S5", f"{rel}::spec_augment_draw_parameters::form::warp-centre=RAND*(L-2H)+H", okc,
-           f"the warp centre is drawn as `{cexp}`; expected RAND * (L - 2H) + H, which lies in [H, L - H)", rel, draw.line, sample=cexp)
-    sexp = pairs["warp-shift"][0]
-    oks = sexp is not None and re.sub(r"\s", "", sexp) in ("-H+2*H*RAND",)
-    col.ob("G12", "S5", f"{rel}::spec_augment_draw_parameters::form::warp-shift=RAND*2H-H", oks,
-           f"the warp shift is drawn as `{sexp}`; expected RAND * 2H - H in [-H, H)", rel, draw.line, sample=sexp)
-    st_ = pairs["mask-start"][0]
-    okst = st_ is not None and om is not None and re.sub(r"\s", "", st_) in (
-        f"(L*RAND+-RAND*S+RAND*{om}).long()", f"(L*RAND+RAND*{om}+-RAND*S).long()", f"(-RAND*S+L*RAND+RAND*{om}).long()")
-    col.ob("G12", "S5", f"{rel}::spec_augment_draw_parameters::form::mask-start=long(RAND*(L-width+1-eps))", okst,
-           f"the mask start is drawn as `{st_}`; expected long(RAND * (L - width + 1 - eps)), so that start + width <= L", rel,
-           draw.line, sample=st_)
-    # widths: long(RAND * (cap + 1 - eps)); caps: time = floor(min(L * proportion, max_time_mask)), freq = min(max_freq_mask, F)
-    wt = [v for v in defs_of(draw, dn[5]) if "torch.empty(0)" not in u(v)]
-    wf = [v for v in defs_of(draw, dn[7]) if "torch.empty(0)" not in u(v)]
-    # a width may be built in several statements (draw, then zero the masks beyond the allowed number): look at the fullest
-    # expansion; the cap variables (`<cap> + (1 - eps)`) stay names, they are looked up below
-    from sa.inline import Inliner as _InlW
-    _capc = {x.left.id for x in ast.walk(draw.node) if isinstance(x, ast.BinOp) and isinstance(x.op, ast.Add)
-             and isinstance(x.left, ast.Name) and om and u(x.right) == om}
-    _inlw = _InlW(draw.node, keep=_capc | ({om} if om else set()))
-    wt = sorted((_inlw.expand(v) for v in wt), key=lambda e: -len(u(e)))
-    wf = sorted((_inlw.expand(v) for v in wf), key=lambda e: -len(u(e)))
-    capn = None
-    okwf = okwt = False
-    if wf and wt and om:
-        cf = _canon(wf[0], {})
-        m = re.fullmatch(r"\(RAND\*(\w+) \+ RAND\*" + om + r"\)\.long\(\)|\((\w+)\*RAND \+ RAND\*" + om + r"\)\.long\(\)", cf.replace("*", "*"))
-        okwf = bool(re.fullmatch(r"\((\w+)\*RAND \+ RAND\*" + om + r"\)\.long\(\)", cf)) or bool(
-            re.fullmatch(r"\(RAND\*" + om + r" \+ RAND\*(\w+)\)\.long\(\)", cf)) or bool(re.fullmatch(r"\(RAND\*(\w+) \+ RAND\*" + om + r"\)\.long\(\)", cf))
-        ct = _canon(wt[0], {})
-        okwt = ct.startswith("(") and ".long().masked_fill(" in ct and "RAND" in ct and om in ct
-    col.ob("G12", "S5", f"{rel}::spec_augment_draw_parameters::form::mask-width=long(RAND*(cap+1-eps))", okwf and okwt,
-           f"mask widths are drawn as time `{_canon(wt[0], {}) if wt else None}` / freq `{_canon(wf[0], {}) if wf else None}`; "
-           f"expected long(RAND * (cap + 1 - eps)) (and zeroed beyond the allowed number of time masks)", rel, draw.line)
-    capnames = set()
-    for v in wt + wf:
-        for x in ast.walk(v):
-            if isinstance(x, ast.BinOp) and isinstance(x.op, ast.Add) and isinstance(x.left, ast.Name) and u(x.right) == om:
-                capnames.add(x.left.id)
-    caps = [v for cn_ in sorted(capnames) for v in defs_of(draw, cn_)]
-    capt = [_canon(v, {}) for v in caps]
-    okcap = len(caps) == 2 and any("min(L" in c.replace("lengths", "L") or "min(lengths*max_time_mask_proportion" in c.replace(" ", "") for c in capt) \
-        and any(c.replace(" ", "") in ("min(max_freq_mask,F)", "min(F,max_freq_mask)") for c in capt)
-    txtcaps = " | ".join(capt)
-    okcap = len(caps) == 2 and "max_time_mask_proportion" in txtcaps and "max_time_mask" in txtcaps and ".floor()" in txtcaps \
-        and any(c.replace(" ", "") in (f"min(max_freq_mask,{Fd})", f"min({Fd},max_freq_mask)") for c in capt)
-    col.ob("G12", "S5", f"{rel}::spec_augment_draw_parameters::caps", okcap,
-           f"mask-width caps are {capt}; expected floor(min(lengths * proportion, max_time_mask)) and min(max_freq_mask, F)",
-           rel, draw.line, sample=capt)
-    # the count cap: the bound compared with the mask index (an arange) in the 'beyond the allowed number of masks' fill;
-    # decided on the expansion of the width expression, so the index range / the condition may carry names of their own
-    from sa.astutil import oriented as _or
-    from sa.inline import Inliner as _Inl
-    inl_d = _Inl(draw.node)
-    nums = []
-    for v in wt:
-        for x in ast.walk(inl_d.expand(v)):
-            if isinstance(x, ast.Compare):
-                o_ = _or(x, lambda e: "torch.arange" in u(e))
-                if o_ is not None and o_[0] == "ge":  # index >= count
-                    nums.append(_canon(_Strip().visit(copy.deepcopy(o_[2])), {}))
-    col.ob("G12", "S5", f"{rel}::spec_augment_draw_parameters::count-cap", len(nums) == 1 and "num_time_mask_proportion" in nums[0]
-           and "num_time_mask" in nums[0] and ".floor()" in nums[0],
-           f"the number of time masks is capped by {nums}; expected floor(min(lengths * proportion, num_time_mask))", rel, draw.line)
+    # ---- S5 the eight drawn parameters, as a table ------------------------------------------------------------------
+    # (props/c08_draw.py: the draw function interpreted for one sequence / one mask slot over rationals and compared with the
+    # documented formulas at a grid of lengths, sizes, limits, draws and mask indices - whatever the statement layout)
+    from .c08_draw import SLOTS, Und as _DUnd, draw_table
+    try:
+        npts, badslots = draw_table(draw.node, [p.name for p in draw.params])
+        for sname in SLOTS:
+            bd = badslots.get(sname)
+            col.ob("G12", "S5", f"{rel}::spec_augment_draw_parameters::drawn[{sname}]", bd is None,
+                   f"the drawn {sname} is not the documented function of (length, limits, draw): {bd}", rel, draw.line,
+                   sample=dict(points=npts))
+    except _DUnd as ex_:
+        col.undecided(f"{rel}::spec_augment_draw_parameters: outside the interpreted fragment ({ex_})")
     # apply: interval masks symmetric
     # ---- S6 every drawn (centre, shift) gives the warp three well-separated knots --------------------------------------
     _warp_knots(ctx, rel)
@@ -563,9 +468,9 @@ def _mutants():
         M("apply-slots-swapped", I, "w_0, w, v_0, v, t_0, t, f_0, f = params", "w_0, w, v_0, v, t, t_0, f_0, f = params", "G"),
         M("draw-return-swapped", I, "return (w_0, w, v_0, v, t_0, t, f_0, f)", "return (w_0, w, v_0, v, f_0, f, t_0, t)", "slot-sources"),
         M("freq-start-ignores-width", I, "f_0 = (torch.rand([N, num_freq_mask], device=device) * (F - f + omeps)).long()", "f_0 = (torch.rand([N, num_freq_mask], device=device) * (F + omeps)).long()", "G"),
-        M("time-start-off-by-one", I, "* (lengths.unsqueeze(1) - t + omeps)).long()", "* (lengths.unsqueeze(1) - t + 1 + omeps)).long()", "time~freq::mask-start"),
-        M("freq-centre-bound", I, "v_0 = torch.rand([N], device=device) * (F - 2 * V) + V", "v_0 = torch.rand([N], device=device) * (F - V) + V", "time~freq::warp-centre"),
-        M("time-shift-one-sided", I, "w = torch.rand([N], device=device) * (2 * W) - W", "w = torch.rand([N], device=device) * (2 * W)", "time~freq::warp-shift"),
+        M("time-start-off-by-one", I, "* (lengths.unsqueeze(1) - t + omeps)).long()", "* (lengths.unsqueeze(1) - t + 1 + omeps)).long()", "drawn[time-mask-start]"),
+        M("freq-centre-bound", I, "v_0 = torch.rand([N], device=device) * (F - 2 * V) + V", "v_0 = torch.rand([N], device=device) * (F - V) + V", "drawn[freq-warp-centre]"),
+        M("time-shift-one-sided", I, "w = torch.rand([N], device=device) * (2 * W) - W", "w = torch.rand([N], device=device) * (2 * W)", "drawn[time-warp-shift]"),
         M("eval-clone", I, "if not training:\n        return feats", "if not training:\n        return feats.clone()", "eval-identity"),
         M("layer-eval-augments", I, "if not self.training:\n            return feats", "if False:\n            return feats", "eval-identity"),
         M("fill-nonzero", I, "new_feats = new_feats.masked_fill(fmask, 0.0)", "new_feats = new_feats.masked_fill(fmask, 1e-05)", "only-resample-then-one-zero-fill"),
@@ -575,7 +480,7 @@ def _mutants():
         M("interval-inclusive-end", I, "tmask = (tmask >= t_0.unsqueeze(1)) & (tmask < t_1.unsqueeze(1))", "tmask = (tmask >= t_0.unsqueeze(1)) & (tmask <= t_1.unsqueeze(1))", "interval-masks"),
         M("spec-augment-args-swapped", I, "max_time_mask, max_freq_mask, max_time_mask_proportion, num_time_mask, num_time_mask_proportion, num_freq_mask, lengths)\n    return spec_augment_apply_parameters",
           "max_freq_mask, max_time_mask, max_time_mask_proportion, num_time_mask, num_time_mask_proportion, num_freq_mask, lengths)\n    return spec_augment_apply_parameters", "G1"),
-        M("freq-cap-dropped", I, "max_ = min(max_freq_mask, F)", "max_ = max_freq_mask", "caps"),
+        M("freq-cap-dropped", I, "max_ = min(max_freq_mask, F)", "max_ = max_freq_mask", "drawn[freq-mask-width]"),
         M("twin:rename-grid", I, "time_grid", "tgrid", "", -1, twin=True),
     ]
 
